@@ -41,10 +41,13 @@ def _cfg():
 def raw_stress(r) -> str:
     """a simple command whose raw-text positions contain things the scanner must handle or refuse"""
     inner = r.pick(["rm x", "ls", "denied", "echo hi", "foo"])
-    body = "".join(r.pick(RAW_NOISE) for _ in range(r.randint(0, 3))) + r.pick(["", "", "", "\\\\", "\\\\\\\\", "x\\\\"]) + "$(" + r.pick(["echo a", "ls", inner]) + "".join(r.pick(RAW_NOISE) for _ in range(r.randint(0, 2))) + "; " + inner + ")" + "".join(r.pick(RAW_NOISE) for _ in range(r.randint(0, 2)))
+    opener = r.pick(["$(", "$(", "$(", "<(", ">("])  # bash runs <( ) and >( ) in ${..} arguments, [[ ]] operands and case patterns
+    body = "".join(r.pick(RAW_NOISE) for _ in range(r.randint(0, 3))) + r.pick(["", "", "", "\\\\", "\\\\\\\\", "x\\\\"]) + opener + r.pick(["echo a", "ls", inner]) + "".join(r.pick(RAW_NOISE) for _ in range(r.randint(0, 2))) + "; " + inner + ")" + "".join(r.pick(RAW_NOISE) for _ in range(r.randint(0, 2)))
     k = r.random()
-    if k < 0.35:
+    if k < 0.3:
         return "echo ${x:-" + body + "}"
+    if k < 0.42:
+        return "[[ x " + r.pick(["==", "=~", "!="]) + " " + body.replace("\n", " ") + " ]]"
     if k < 0.55:
         return "cat <<EOF\n" + body + "\nEOF"
     if k < 0.7:
